@@ -5,6 +5,7 @@ import (
 	"os"
 	"sort"
 	"strings"
+	"time"
 
 	"verifh/atrun"
 	"verifh/fakedb"
@@ -801,6 +802,7 @@ func Run(args map[string]string) {
 	}
 	seed := hutil.ArgU64(args, "seed", 1)
 	var cases []*CaseJ
+	truncated := false
 	emit := func(p *Plan, r *hutil.Rng, kf int) {
 		switch p.Stream {
 		case "c09":
@@ -844,6 +846,9 @@ func Run(args map[string]string) {
 		}
 	} else {
 		kf := hutil.ArgInt(args, "kf", 4)
+		// wall-clock budget: on the unchanged tree a quick run takes seconds; a rollback that leaves its transaction
+		// open makes every later step and teardown run into its limit, so stop generating and report what was seen
+		deadline := time.Now().Add(time.Duration(hutil.ArgInt(args, "budget_s", 3000)) * time.Second)
 		for _, sn := range []struct {
 			stream, arg string
 			def         int
@@ -851,6 +856,10 @@ func Run(args map[string]string) {
 			n := hutil.ArgInt(args, sn.arg, sn.def)
 			rng := hutil.NewRng(seed*1000003 + uint64(len(sn.stream))*7919 + uint64(sn.stream[2]))
 			for i := 0; i < n; i++ {
+				if time.Now().After(deadline) {
+					truncated = true
+					break
+				}
 				r := rng.Fork(uint64(i))
 				p := genPlan(r, sn.stream, seed, i)
 				for try := 0; try < 6 && !runShadow(p).ok; try++ {
@@ -863,5 +872,5 @@ func Run(args map[string]string) {
 			}
 		}
 	}
-	hutil.WriteJSON(out, map[string]interface{}{"cases": cases})
+	hutil.WriteJSON(out, map[string]interface{}{"cases": cases, "truncated": truncated})
 }
